@@ -89,9 +89,15 @@ def sizes_2d(L, tier):
         if L <= 12:
             hs = list(range(2, 2 * L + 5))
             ws = [2, 3]
-        else:
+        elif L <= 20:
             hs = sorted(set(list(range(2, 6)) + list(range(L - 2, L + 4)) + list(range(2 * L - 1, 2 * L + 5))))
             ws = [2, 3]
+        elif L <= 40:
+            hs = [2, 3, L - 1, L, L + 1]
+            ws = [2, 3]
+        else:
+            # very long filters: one dense 2-D pass costs seconds; every length is covered through the 1-D transform
+            return [(2, 2), (3, 3), (L, 2), (2, L), (L + 1, 3)]
     cross = [(h, w) for h in hs for w in ws] + [(w, h) for h in hs for w in ws]
     return sorted(set(cross))
 
